@@ -212,20 +212,28 @@ def jacobian_cases(draw, tier):
                                                           "named"]))
     return {"d": spec, "vars": draw(st.lists(st.sampled_from(["u", "v"]),
                                              unique=True, max_size=2)),
+            "mixed": draw(st.booleans()),
             "env": {s: draw(st.sampled_from(POINTS))
                     for s in ["u", "v", "x", "y", "z"]}}
+
+
+def pure_term_eval(term):
+    """ Pure tensor of one term of a jacobian (the index wire is a classical
+    digit, so Circuit.eval would treat the sum as mixed). """
+    from discopy import tensor
+    return tensor.Functor(lambda x: x[0].dim, lambda f: f.array)(term)
 
 
 def check_jacobian(case):
     spec, env, variables = case["d"], case["env"], case["vars"]
     d = specs.build(spec)
-    # the index wire of a circuit jacobian is classical, so only the default
-    # (classical-quantum) gradients can be stacked
+    mixed = case.get("mixed", True)
+    params = {} if mixed else {"mixed": False}
     try:
-        jac = d.jacobian([c14.sym(v) for v in variables])
+        jac = d.jacobian([c14.sym(v) for v in variables], **params)
     except NotImplementedError:
         return dict(nt=False, labels=["NotImplementedError"])
-    value = d.eval(mixed=True)
+    value = d.eval(mixed=True) if mixed else d.eval()
     if not variables:
         require(len(jac.terms) == 0, "C15:empty-jacobian", str(jac))
         return dict(nt=False, labels=["vars0"])
@@ -233,13 +241,23 @@ def check_jacobian(case):
                if v in {str(s) for s in d.free_symbols}]
     if not depends:
         return dict(nt=False, labels=["independent"])
-    arr = c14.to_complex(np.asarray(
-        jac.eval(mixed=True).array, dtype=object), env)
+    specs.well_typed(jac, "jacobian")
+    if mixed:
+        arr = c14.to_complex(np.asarray(
+            jac.eval(mixed=True).array, dtype=object), env)
+    else:
+        total = None
+        for term in jac.terms:
+            t = np.asarray(pure_term_eval(term).array, dtype=object)
+            total = t if total is None else total + t
+        arr = c14.to_complex(total, env)
     rows = [symbolic_derivative(value.array, v, env) for v in variables]
     same(arr, np.stack(rows).reshape(-1) if len(variables) > 1 else rows[0],
-         "circuit-jacobian", "{} wrt {}".format(common.show(d), variables))
-    return dict(nt=len(variables) == 2, labels=["vars%d" % len(variables)],
-                show="jacobian {} {}".format(variables, common.show(d, 150)))
+         "circuit-jacobian", "{} wrt {} (mixed={})".format(
+             common.show(d), variables, mixed))
+    return dict(nt=len(variables) == 2, labels=[
+        "vars%d" % len(variables), "mixed" if mixed else "pure"],
+        show="jacobian {} {}".format(variables, common.show(d, 150)))
 
 
 core.register("C15", [
